@@ -493,6 +493,22 @@ func (fr *Frame) collectNames() {
 	for n := range amb {
 		delete(fr.nameVals, n)
 	}
+	// a loop-carried variable is named by its phi (the value at the loop header)
+	for _, b := range fr.fn.Blocks {
+		if fr.loopBody[b] == nil {
+			continue // only loop headers
+		}
+		for _, in := range b.Instrs {
+			if p, ok := in.(*ssa.Phi); ok && p.Comment != "" && p.Comment != "rangeindex" {
+				if _, dup := fr.nameVals["phi:"+p.Comment]; dup {
+					delete(fr.nameVals, p.Comment)
+					continue
+				}
+				fr.nameVals["phi:"+p.Comment] = p
+				fr.nameVals[p.Comment] = p
+			}
+		}
+	}
 }
 
 func (fr *Frame) runBlock(b *ssa.BasicBlock, entry *State) {
@@ -678,7 +694,7 @@ func (fr *Frame) step(b *ssa.BasicBlock, in ssa.Instruction, st *State) {
 		r := u.allocRef(st, "mkslice:"+x.Name())
 		key := u.regA(stt.Elem())
 		h := u.heapOf(st, key)
-		st.heap[key] = u.nameHeap(key, fmt.Sprintf("(store %s %s ((as const (Array Int %s)) %s))", h, r, w.sortOf(stt.Elem()), w.zero(stt.Elem())))
+		st.heap[key] = u.nameHeap(key, fmt.Sprintf("(store %s %s %s)", h, r, w.constArray(fmt.Sprintf("(Array Int %s)", w.sortOf(stt.Elem())), w.sortOf(stt.Elem()), w.zero(stt.Elem()))))
 		fr.vals[x] = term(fmt.Sprintf("(mkSlice %s 0 %s %s)", r, ln, cp), x.Type())
 	case *ssa.MakeChan:
 		r := u.allocRef(st, "chan:"+x.Name())
